@@ -262,6 +262,11 @@ impl Shared {
                 log::warn!("timed out waiting for kernel thread to submit");
                 return;
             }
+            #[cfg(a10_verif)]
+            crate::verif::sync_point(
+                crate::verif::SYNC_SPIN_WAIT,
+                self.submissions_head.as_ptr(),
+            );
             thread::yield_now();
         }
     }
